@@ -26,6 +26,7 @@ def sh(cmd, cwd=None, env=None, timeout=3600):
 def demo_cmd(demo, wt):
     """compile/run command from the comment at the top of demo.cpp; fall back to a default"""
     txt = open(demo).read()[:3000]
+    txt = re.sub(r"\\\s*\n\s*//\s*", " ", txt)      # join continuation lines of the commented command
     m = re.search(r"(g\+\+|mpicxx)[^\n]*demo\.cpp[^\n]*", txt)
     threads = re.search(r"OMP_NUM_THREADS=(\d+)", txt)
     comp = m.group(0) if m else "g++ -std=c++17 -O1 -fopenmp -I%s demo.cpp -o demo" % wt
